@@ -312,6 +312,26 @@ def main():
         if ck.enough():
             break
         ck.guard(run_case, ck, gen_case(ck, 500 if not ck.thorough else 8000))
+    # balls with more than 256 layers (a token on a cycle of 530..600 positions): the layer that is hit has a 9-bit index
+    for _ in range(1 if not ck.thorough else 8):
+        if ck.enough():
+            break
+        L = ck.rng.randint(530, 560)
+        gens = [[(i + 1) % L for i in range(L)], [(i - 1) % L for i in range(L)]]
+        central = [0] * L
+        central[0] = 1
+        gd = graphs.GDef("perm", gens, central, tag="long-cycle")
+        depth = ck.rng.randint(257, min(275, L // 2 - 12))
+        extra = ck.rng.randint(1, 8)
+        start = [0] * L
+        start[(depth + extra) * ck.rng.choice([1, -1]) % L] = 1
+        cfg = graphs.gen_cfg(ck.rng, gd)
+        cfg["batch_size"] = 2**20
+        cfg["bit_encoding_width"] = ck.rng.choice([None, 1, "auto"])  # wide codes make the bit-by-bit encoder slow on 540 points
+        case = {"gd": gd.to_json(), "cfg": cfg, "dest": None, "start": start, "mode": "simple", "width": 4 * L, "steps": extra + ck.rng.randint(0, 3), "hist": 0, "return_path": ck.rng.random() < 0.5,
+                "predictor": "hamming", "ball_depth": depth, "pseed": 0, "ball_nohash": False, "ball_store": 2, "warm": None}  # fmt: skip
+        ck.guard(run_case, ck, case)
+        ck.count("balls with more than 256 layers")
     ck.assumptions = [
         "torch.argsort results are recorded and replayed by the model; the theorems hold for every selection",
         "a BFS ball on non-inverse-closed generators is rejected up front by the (repaired) code; counted, not judged",
